@@ -52,10 +52,17 @@ class C01(BaseMonitor):
         sim = self.sim
         try:
             ref = reference_world(sim)
-        except Exception as e:
+        except (ValueError, PermissionError) as e:
+            # the library refuses to build this description from scratch: outside the envelope (W4)
             self.res.count("left_envelope:" + type(e).__name__)
             self.stop = "left_envelope"
             return
+        except Exception as e:
+            # not a refusal but a crash (KeyError, AttributeError, ...) on a description that the live model
+            # accepted edit by edit: there is nothing the live values could be equal to
+            raise Violation("C01", "fresh_build_crash", {type(e).__name__},
+                            f"building the final inputs from scratch crashes: {type(e).__name__}: {str(e)[:200]}",
+                            i, op_kind(op))
         names = S.closure(sim.spec)
         live = C.calc_snapshot(sim.world, names)
         fresh = C.calc_snapshot(ref, names)
